@@ -14,7 +14,7 @@ Params Params::mini() {
     Params p;
     p.argon_memory_kib = 256;
     p.dataset_base_size = 262144;
-    p.dataset_extra_size = 4032;
+    p.dataset_extra_size = 65472;
     p.program_iterations = 16;
     p.scratchpad_l3 = 65536;
     p.scratchpad_l2 = 16384;
